@@ -461,6 +461,11 @@ class NumpyCodegenMapper(CachedMapper[str, Never, []]):
                     stop = (None
                             if are_shape_components_equal(dim, idx.stop)
                             else idx.stop)
+                elif are_shape_components_equal(-1, idx.start):
+                    # normalized start of -1 with a negative step selects
+                    # nothing; a literal -1 would mean "last element".
+                    start = 0
+                    stop = 0
                 else:
                     start = (None
                              if are_shape_components_equal(dim-1, idx.start)
